@@ -205,7 +205,7 @@ fn encoder_cases(args: &util::Args, out: &mut String, stats: &mut String) {
     let thorough = args.tier == "thorough";
     let mut id = 0usize;
     // identifiers
-    let mut ids = idents_upto(4);
+    let mut ids = idents_upto(if thorough { 5 } else { 4 });
     for kw in goscope::GO_KEYWORDS {
         ids.push(kw.to_string());
         ids.push(format!("{}_", kw));
